@@ -2,6 +2,8 @@ package main
 
 import (
 	"fmt"
+	"google.golang.org/protobuf/runtime/protoiface"
+	"google.golang.org/protobuf/runtime/protoimpl"
 	"math/rand"
 	"strings"
 
@@ -98,6 +100,35 @@ type wWorld struct {
 	Ops     []opJ    `json:"ops"`           // C06: accessor calls / walks, in order
 	Param   string   `json:"param"`         // C17: the request's parameter string ("" or "paths=source_relative")
 	Rev     bool     `json:"rev,omitempty"` // C04 (harness only): ask the files in reverse order
+	// Opts (harness only): ordinary messages carry custom options (two string extensions of MessageOptions),
+	// which ones is a function of the message's position (optMask)
+	Opts bool `json:"opts,omitempty"`
+}
+
+// the two custom options of worlds with Opts, per kind of options message
+func mkOpt(ext protoiface.MessageV1, field int32, name string) *protoimpl.ExtensionInfo {
+	return &protoimpl.ExtensionInfo{ExtendedType: ext, ExtensionType: (*string)(nil), Field: field, Name: "verif." + name,
+		Tag: fmt.Sprintf("bytes,%d,opt,name=%s", field, name)}
+}
+
+var (
+	extOptA  = mkOpt((*descriptor.MessageOptions)(nil), 50001, "opt_a")
+	extOptB  = mkOpt((*descriptor.MessageOptions)(nil), 50002, "opt_b")
+	extFOptA = mkOpt((*descriptor.FileOptions)(nil), 50011, "fopt_a")
+	extFOptB = mkOpt((*descriptor.FileOptions)(nil), 50012, "fopt_b")
+	extEOptA = mkOpt((*descriptor.EnumOptions)(nil), 50021, "eopt_a")
+	extEOptB = mkOpt((*descriptor.EnumOptions)(nil), 50022, "eopt_b")
+	extSOptA = mkOpt((*descriptor.ServiceOptions)(nil), 50031, "sopt_a")
+	extSOptB = mkOpt((*descriptor.ServiceOptions)(nil), 50032, "sopt_b")
+)
+
+// optMask: bit 0 = the message at r carries option A, bit 1 = option B
+func optMask(r ref) int {
+	s := r.File + len(r.Path)
+	for _, p := range r.Path {
+		s += p
+	}
+	return s % 4
 }
 
 type ref struct {
@@ -124,6 +155,7 @@ var mapKeyKinds = []int{3, 4, 5, 6, 7, 8, 9, 13, 15, 16, 17, 18}
 // ---------- conversion to descriptors, remembering which descriptor is which declaration ----------
 
 type built struct {
+	opts  bool
 	files []*descriptor.FileDescriptorProto
 	refOf map[interface{}]ref // descriptor pointer -> declaration reference
 }
@@ -166,6 +198,19 @@ func (b *built) enum(e wEnum, r ref) *descriptor.EnumDescriptorProto {
 	if e.Alias {
 		ed.Options = &descriptor.EnumOptions{AllowAlias: proto.Bool(true)}
 	}
+	if b.opts {
+		if k := optMask(r); k != 0 {
+			if ed.Options == nil {
+				ed.Options = &descriptor.EnumOptions{}
+			}
+			if k&1 != 0 {
+				proto.SetExtension(ed.Options, extEOptA, "a-of-"+e.Name)
+			}
+			if k&2 != 0 {
+				proto.SetExtension(ed.Options, extEOptB, "b-of-"+e.Name)
+			}
+		}
+	}
 	for i, v := range e.Values {
 		vd := &descriptor.EnumValueDescriptorProto{Name: proto.String(v.Name), Number: proto.Int32(v.Number)}
 		b.refOf[vd] = mkRef(r.File, r.Path, 2, i)
@@ -181,6 +226,19 @@ func (b *built) msg(m wMsg, r ref) *descriptor.DescriptorProto {
 		md.Options = &descriptor.MessageOptions{MapEntry: proto.Bool(true)}
 	} else if m.Head.MEExplicit {
 		md.Options = &descriptor.MessageOptions{MapEntry: proto.Bool(false)}
+	}
+	if b.opts && !m.Head.MapEntry {
+		if k := optMask(r); k != 0 {
+			if md.Options == nil {
+				md.Options = &descriptor.MessageOptions{}
+			}
+			if k&1 != 0 {
+				proto.SetExtension(md.Options, extOptA, "a-of-"+m.Head.Name)
+			}
+			if k&2 != 0 {
+				proto.SetExtension(md.Options, extOptB, "b-of-"+m.Head.Name)
+			}
+		}
 	}
 	if m.Head.ExtRange {
 		md.ExtensionRange = []*descriptor.DescriptorProto_ExtensionRange{{Start: proto.Int32(1000), End: proto.Int32(536870912)}}
@@ -207,7 +265,7 @@ func (b *built) msg(m wMsg, r ref) *descriptor.DescriptorProto {
 }
 
 func buildWorld(w wWorld) *built {
-	b := &built{refOf: map[interface{}]ref{}}
+	b := &built{refOf: map[interface{}]ref{}, opts: w.Opts}
 	for fi, f := range w.Files {
 		fd := &descriptor.FileDescriptorProto{Name: proto.String(f.Name)}
 		if f.Pkg != "" || f.PkgPresent {
@@ -226,6 +284,19 @@ func buildWorld(w wWorld) *built {
 		if f.GoPackage != "" {
 			fd.Options = &descriptor.FileOptions{GoPackage: proto.String(f.GoPackage)}
 		}
+		if b.opts {
+			if k := (fi + 1) % 4; k != 0 {
+				if fd.Options == nil {
+					fd.Options = &descriptor.FileOptions{}
+				}
+				if k&1 != 0 {
+					proto.SetExtension(fd.Options, extFOptA, "a-of-"+f.Name)
+				}
+				if k&2 != 0 {
+					proto.SetExtension(fd.Options, extFOptB, "b-of-"+f.Name)
+				}
+			}
+		}
 		for i, m := range f.Msgs {
 			fd.MessageType = append(fd.MessageType, b.msg(m, mkRef(fi, nil, 4, i)))
 		}
@@ -234,6 +305,17 @@ func buildWorld(w wWorld) *built {
 		}
 		for i, s := range f.Services {
 			sd := &descriptor.ServiceDescriptorProto{Name: proto.String(s.Name)}
+			if b.opts {
+				if k := optMask(mkRef(fi, nil, 6, i)); k != 0 {
+					sd.Options = &descriptor.ServiceOptions{}
+					if k&1 != 0 {
+						proto.SetExtension(sd.Options, extSOptA, "a-of-"+s.Name)
+					}
+					if k&2 != 0 {
+						proto.SetExtension(sd.Options, extSOptB, "b-of-"+s.Name)
+					}
+				}
+			}
 			for j, m := range s.Methods {
 				md := &descriptor.MethodDescriptorProto{Name: proto.String(m.Name), InputType: proto.String(m.Input), OutputType: proto.String(m.Output)}
 				if m.CS {
